@@ -375,20 +375,33 @@ def monitor_bootstrap(events, per_event, reqs):
                     bad.append(("C06_bootstrap_pairing", "Deferred %d got a frame whose id bytes are not request[4:8]" % h))
         if ev[0] == "lost":
             lost = True
-    # no crosstalk: a frame carrying the id of a cancelled, not yet answered request must not drop the connection
-    cancelled_open = {}
+    # no crosstalk: the connection is dropped ONLY for a length prefix over the limit or a frame whose id is in nobody's
+    # table entry; the entry of a cancelled request stays until its (late) response came, so that response drops nothing
+    table, buf, aborted, gone = set(), b"", False, False
     for ev, outs in zip(events, per_event):
-        for o in outs:
-            if o[0] == "def" and o[2] == 3 and o[1] < len(reqs):
-                cancelled_open[reqs[o[1]][4:8]] = o[1]
-        if ev[0] == "lost":
-            cancelled_open = {}
-        if ev[0] == "data" and len(ev[1]) >= 8:
-            ln = struct.unpack(">I", ev[1][:4])[0]
-            if ln + 4 == len(ev[1]) and ev[1][4:8] in cancelled_open:      # one whole frame for a cancelled request
-                del cancelled_open[ev[1][4:8]]
-                if ("lose",) in outs:
-                    bad.append(("C06_bootstrap_no_crosstalk", "the late response to a cancelled request dropped the connection"))
+        if ev[0] == "req" and any(o[0] == "write" for o in outs):
+            table.add(bytes(ev[1][4:8]))
+        elif ev[0] == "lost":
+            gone = True
+        elif ev[0] == "data" and not gone:
+            justified = aborted
+            if not aborted:
+                buf += bytes(ev[1])
+                while len(buf) >= 4:
+                    ln = struct.unpack(">I", buf[:4])[0]
+                    if ln > MAXLEN:
+                        aborted = justified = True
+                        break
+                    if len(buf) - 4 < ln:
+                        break
+                    cid = buf[4:4 + ln][:4]
+                    buf = buf[4 + ln:]
+                    if cid in table:
+                        table.discard(cid)
+                    else:
+                        justified = True
+            if ("lose",) in outs and not justified:
+                bad.append(("C06_bootstrap_no_crosstalk", "the connection was dropped although every received frame carried the id of a request in the table (pending or cancelled) and no length was over the limit"))
     if lost:
         left = [h for h in range(len(reqs)) if h not in fired]
         if left:
